@@ -711,9 +711,11 @@ class Monitors:
         while self._fallback_seen < len(self.world.fallback_fire):
             f = dict(self.world.fallback_fire[self._fallback_seen])
             self._fallback_seen += 1
-            tstate = self.devices[f["target"]]._state
-            # the slot of a ball that left but is not confirmed yet must stay blocked: it may come back (and does here)
-            if tstate in ("ball_left", "failed_confirm"):
+            tdev = self.devices[f["target"]]
+            tstate = tdev._state
+            # the slot of a ball that left but is not confirmed yet must stay blocked: it may come back (and does here).
+            # (not if MPF has just ended that eject, e.g. because another arriving ball was taken for the returning one)
+            if tstate in ("ball_left", "failed_confirm") and tdev.ball_count_handler._eject_started.is_set():
                 f["target_state"] = tstate
                 self.violation("C04", "no_room", "fired_towards_device_whose_unconfirmed_ball_falls_back", f)
         if self.world.full_fire:
@@ -1053,6 +1055,8 @@ def evaluate_rest(mon, world, rested, horizon, trace):
             if oc in ("weak", "back_early") and _confirmed_by_coincidence(mon, world, t, dv):
                 back_late += 1
         for tname, r in mon.requests.items():
+            if tname in world.devs and world.devs[tname].ejector in ("mech", "mech_coil") and mon.idle_skips.get(tname):
+                continue    # MPF took a ball for one that skipped this mechanical plunger: "delivered there" is undefined
             mon.clauses["delivery"] += 1
             dl = world.deliveries.get(tname, 0)
             q = queued.get(tname, 0)
